@@ -442,3 +442,7 @@ int finish() {
 }
 
 } // namespace vf
+
+// Default (no-op) schedule-point hooks for harnesses that do not link the vsched engine.
+extern "C" __attribute__((weak)) void asl_verif_point(int, const void*) {}
+extern "C" __attribute__((weak)) void asl_verif_spin(const volatile void*) {}
